@@ -129,7 +129,9 @@ AGGOP = {"sum": "ASum", "min": "AMin", "max": "AMax", "avg": "AAvg", "count": "A
 def cfilter(P, f):
     if f.get("simple"):
         s = f["simple"]
-        if s["is_str"]:
+        if s.get("ill"):
+            head = "(HSimple float (SfIll float))"
+        elif s["is_str"]:
             op = {"=": "SoEq", "!=": "SoNe", "=~": "SoRe", "!~": "SoNre"}[s["fn"]]
             head = "(HSimple float (SfStr float %s %s %s))" % (op, P.s(s["label"]), P.s(unhex(s["str"])))
         else:
@@ -208,11 +210,11 @@ def ctables(P, t):
 
 def case_to_coq(P, c):
     base = c["from"]
-    return ("(Build_fcase %d %s (Build_ctx %s %s %d)\n     %s\n     %s %s\n     %s)" % (
-        c["id"], ctables(P, c["tab"]), P.z(c["from"]), P.z(c["to"]), c["limit"],
+    return ("(Build_fcase %d %s (Build_ctx %s %s %s)\n     %s\n     %s %s\n     %s)" % (
+        c["id"], ctables(P, c["tab"]), P.z(c["from"]), P.z(c["to"]), P.z(c["limit"]),
         coq_list([cstage(P, i, s) for i, s in enumerate(c["chain"])]),
         coq_list([coq_list([centry(P, base, e) for e in b]) for b in c["in"]]), "true" if KILLS[0] else "false",
-        cobs(P, base, c["out"])))
+        cobs(P, base, c["out"]) + (" true" if c["out"].get("cancel") else " false")))
 
 
 PRELUDE = ("From Coq Require Import List ZArith NArith Bool String Ascii Floats.\nFrom Qryn Require Import model.InternalEngine.\n"
@@ -334,16 +336,27 @@ def load(path):
 def run_cases(ck, cases, label):
     chain_cases = [c for c in cases if c.get("mode", "") != "fp"]
     fp_cases = [c for c in cases if c.get("mode", "") == "fp"]
+    def ill(f):
+        return bool(f) and (bool((f.get("simple") or {}).get("ill")) or ill(f.get("complex")) or ill(f.get("tail")))
+
     def predicted_refusal(c):
-        return any(s["k"] == "agg_op" and s.get("fn") in ("stddev", "stdvar") for s in c["chain"])
+        return any((s["k"] == "agg_op" and s.get("fn") in ("stddev", "stdvar")) or (s["k"] == "label_filter" and ill(s.get("filter"))) for s in c["chain"])
+    pp = [c for c in chain_cases if c["out"]["err"] == "planpanic"]
+    ck.obligation("%s: Process() of no planned stage panics (a panic there is answered 500 Internal Server Error by the controller's recover)" % label, not pp,
+                  "; ".join("%s: %s" % (c["query"], c["out"].get("err_msg", "")[:80]) for c in pp[:3]))
+    if pp:
+        c = min(pp, key=size_of)
+        ck.violation({"property": PID, "kind": "Process() of an in-process stage panics: the request fails with status 500 although the expression is one the ClickHouse planner refuses with an error message",
+                      "query": c["query"], "case": slim(c), "panic": c["out"].get("err_msg"),
+                      "replay": "harness inteng --cases <file with this case as one JSON line>"})
     runnable = [c for c in chain_cases if c.get("chain") and (c["out"]["err"] in ("", "err", "panic", "crash") or (c["out"]["err"] == "plan" and predicted_refusal(c)))]
     skipped = [c for c in chain_cases if c not in runnable]
-    bad = [c for c in skipped if c["out"]["err"] not in ("nosplit", "parse", "plan")]
+    bad = [c for c in skipped if c["out"]["err"] not in ("nosplit", "parse", "plan", "planpanic")]
     ck.obligation("%s: every generated case ran (no timeout / unknown processor)" % label, not bad,
                   "; ".join("%s: %s %s" % (c["id"], c["out"]["err"], c["out"].get("err_msg", "")[:100]) for c in bad[:5]))
     refused = [c for c in chain_cases if c["class"] == "refused"]
     not_refused = [c for c in refused if c["out"]["err"] != "plan"]
-    ck.obligation("%s: topk / bottomk / quantile_over_time over a split pipeline are refused by the planner (%d queries): they never run in process" % (label, len(refused)),
+    ck.obligation("%s: topk / bottomk / quantile_over_time over a split pipeline and a zero range [0s] are refused by the planner (%d queries): they never run in process" % (label, len(refused)),
                   not not_refused, "; ".join("%s -> %s" % (c["query"], c["out"]["err"]) for c in not_refused[:3]))
     pm = panic_mode()
     KILLS[0] = pm == "crash"
@@ -388,7 +401,8 @@ def run_cases(ck, cases, label):
         ck.violation({"property": PID, "kind": {1: "request fails although the reference semantics yields a result",
                                                 2: "entries/values differ from the reference semantics",
                                                 3: "series identity: fingerprints and label sets do not correspond one to one",
-                                                4: "an upstream error was swallowed"}.get(code, "spec"),
+                                                4: "an upstream error was swallowed",
+                                                5: "the limit stage cancelled the upstream query although the entries that arrived cannot fill the limit"}.get(code, "spec"),
                       "code": code, "query": c["query"], "case": slim(c),
                       "explanation": "spec_code (model/InternalEngine.v) rejects the output the real chain sent for this input",
                       "replay": "harness inteng --cases <file with this case as one JSON line>"})
